@@ -20,7 +20,11 @@ from pyvc.contracts import (Any, Bool, ByteArray, Bytes, Callback, ConcList, Con
                             TupleOf, at, contract, forall, fresh_int, iff, implies, lemma, model)
 
 PROP = 'C17'
-ENVIRONMENT = []
+ENVIRONMENT = [
+    'L2CAP signalling: command handlers are recording stubs that may raise (their own behaviour: C07/C08/C09); Host.send_l2cap_pdu is a recording stub (C05 below it)',
+    'ChannelManager.on_pdu: fixed channels 4 and 6 registered, one dynamic channel looked up by a stub of find_channel; on_control_frame / the channel / the fixed handler are recording stubs here and have contracts of their own',
+    'LeCreditBasedChannel.on_pdu@any-frame reuses the model, ghost and postcondition of contracts/c07_coc.py (C07) without its "SDU length >= 1" precondition',
+]
 CODEC_INLINE = ['bumble.hci:*', 'bumble.l2cap:L2CAP_*', 'bumble.core:*', 'bumble.utils:*']
 
 model('bumble.l2cap:L2CAP_Control_Frame#17', fields=dict(code=IntRange(0, 255), identifier=IntRange(0, 255), name=Str))
@@ -139,11 +143,11 @@ model(
 
 
 def delivered(old, ghost, sig, fixed, chan):
-    return [ghost.to_signalling == old.ghost.to_signalling + sig, ghost.to_fixed == old.ghost.to_fixed + fixed, ghost.to_channel == old.ghost.to_channel + chan]
+    return ghost.to_signalling == old.ghost.to_signalling + sig and ghost.to_fixed == old.ghost.to_fixed + fixed and ghost.to_channel == old.ghost.to_channel + chan
 
 
 def nothing(old, ghost):
-    return delivered(old, ghost, 0, 0, 0)
+    return [delivered(old, ghost, 0, 0, 0)]
 
 
 contract(
@@ -153,7 +157,7 @@ contract(
     ghost=dict(to_signalling=Int, to_fixed=Int, to_channel=Int, channel=Opt(Inst('ghost:Channel17')), first=Int, second=Int),
     requires=lambda self, pdu, ghost: [ghost.first == at(pdu, 0), ghost.second == at(pdu, 1)],
     ensures=lambda self, cid, pdu, old, ghost: [
-        implies(cid == 1 or cid == 5, delivered(old, ghost, 1, 0, 0) + [len(pdu) >= 4]),
+        implies(cid == 1 or cid == 5, delivered(old, ghost, 1, 0, 0) and len(pdu) >= 4),
         implies(cid == 4 or cid == 6, delivered(old, ghost, 0, 1, 0)),
         implies(cid != 1 and cid != 5 and cid != 4 and cid != 6, delivered(old, ghost, 0, 0, 1 if ghost.channel is not None else 0)),
     ],
